@@ -660,7 +660,7 @@ def run(chk, pid, tier, known=None):
         top = [n for n in names if n.startswith(('C01.', 'C02.', 'C06.'))]
         # a failing loop invariant / lemma is searched through the top-level clauses it supports
         want = top if top and all(n in top for n in names) else [n for n in ALL_TOP if n.startswith(pid + '.') or pid == 'C02']
-        found = suggest_bounded.model_search(sorted(set(want) | set(top)), tier, deadline_s=240 if tier == 'quick' else 1500)
+        found = suggest_bounded.model_search(sorted(set(want) | set(top)), tier, deadline_s=480 if tier == 'quick' else 1800)
         out = {n: v for n, v in found.items() if n in names}
         # a failing loop invariant / lemma / clause without its own counter-model is attributed to a reproduced
         # counterexample of the contract found on the same tree (the replay file says which clause broke natively)
